@@ -49,9 +49,31 @@ TagBytes(tr, span) == UNION {Bytes(tr.lay[j].pos, 4) : j \in span}
 
 WindowBounds(L, st) == [lo |-> st.off, hi |-> IF st.len = NoneV THEN L ELSE Min(L, st.off + st.len)]
 
+\* the window a slice needs (TdmsChannel._read_slice normalises start / stop / step as Python does; a reversed slice
+\* needs the values between its two ends, not the channel from its beginning)
+SliceBounds(L, st) ==
+  LET step == IF st.step = NoneV THEN 1 ELSE st.step
+      s1 == IF st.start = NoneV THEN (IF step > 0 THEN 0 ELSE -1) ELSE st.start
+      e1 == IF st.stop = NoneV THEN (IF step > 0 THEN L ELSE -1 - L) ELSE st.stop
+      s2 == IF s1 < 0 THEN L + s1 ELSE s1
+      e2 == IF e1 < 0 THEN L + e1 ELSE e1
+      none == [lo |-> 0, hi |-> 0, empty |-> TRUE]
+  IN IF L = 0 \/ e2 = s2 THEN none
+     ELSE IF step > 0 /\ (e2 < s2 \/ s2 >= L \/ e2 < 0) THEN none
+     ELSE IF step < 0 /\ (e2 > s2 \/ e2 >= L \/ s2 < 0) THEN none
+     ELSE LET s3 == IF s2 < 0 THEN 0 ELSE s2
+              s4 == IF s3 >= L THEN L - 1 ELSE s3
+              e3 == IF e2 > L THEN L ELSE e2
+              e4 == IF e3 < -1 THEN -1 ELSE e3
+          IN IF step > 0 THEN [lo |-> s4, hi |-> e4, empty |-> FALSE] ELSE [lo |-> e4 + 1, hi |-> s4 + 1, empty |-> FALSE]
+
 StepOK(tr, st, prevChunk) ==
   LET segs == tr.segs  L == TotalLen(segs) IN
-  CASE st.kind = "window" ->
+  CASE st.kind = "slice" ->
+         LET b == SliceBounds(L, st) IN
+         IF b.empty THEN st.reads = <<>>
+         ELSE ReadBytes(st.reads) \subseteq Region(tr, Overlapping(segs, b.lo, b.hi)) \cup TagBytes(tr, TagSpan(segs, b.lo, b.hi))
+    [] st.kind = "window" ->
          LET b == WindowBounds(L, st) IN
          ReadBytes(st.reads) \subseteq Region(tr, Overlapping(segs, b.lo, b.hi)) \cup TagBytes(tr, TagSpan(segs, b.lo, b.hi))
     [] st.kind = "index" ->
